@@ -152,6 +152,10 @@ def read_pieces(pexpect, which, enc, errors, pieces, rng=None):
                     # a new awaited expect call starts between two chunks
                     pw.set_expecter(Expecter(c, searcher_string(['\x00never\x00']), None))
                     pw.fut = loop.create_future()
+                if rng is not None and rng.random() < 0.35 and not pw.fut.done():
+                    # the call has ended (found its pattern / timed out) and the event loop delivers more output before the next
+                    # call starts: it is kept for that call - and it is text delivered from the child like any other
+                    pw.fut.set_result(None)
                 pw.data_received(p)
             got = c._before.getvalue()
         finally:
@@ -566,7 +570,9 @@ def oracle_C11(ctx, pexpect, results):
     operation order, every write flushed, same string type as the API"""
     for r in results:
         if 'error' in r:
-            continue
+            # an operation raised: whatever it was asked to read or send is missing from the logs
+            ctx.hit('C11/raises', 'a read or send with log files attached raised %s' % r['error'], {k: repr(v) for k, v in r.items()})
+            return
         a, rd, sd = r['logs']
         typ = str if r['unicode'] else bytes
         writes = {0: [], 1: [], 2: []}
@@ -620,6 +626,35 @@ def oracle_C11(ctx, pexpect, results):
             if empty.join(writes[0]) != empty.join(inter):
                 ctx.hit('C11/logfile', 'transport %d: logfile got %r, operations in order were %r' % (r['which'], empty.join(writes[0]), empty.join(inter)), {k2: repr(v) for k2, v in r.items()})
                 return
+
+
+def async_logs(ctx, pexpect, n):
+    """the awaited read path (PatternWaiter.data_received), with output arriving during a call and between calls, characters
+    cut anywhere: logfile_read gets exactly the text that reaches the buffers, once, in order"""
+    rng = ctx.rng
+    tried = 0
+    for it in range(n):
+        enc = rng.choice(['utf-8', 'utf-8', 'latin-1', 'utf-16-le'])
+        text = ''.join(rng.choice(['a', 'b', 'é', '☃', '\n', '1']) for _ in range(rng.randint(1, 10)))
+        raw = text.encode(enc, 'replace')
+        want = codecs.getincrementaldecoder(enc)('strict').decode(raw, final=False)
+        cuts = sorted(set(rng.randrange(len(raw) + 1) for _ in range(rng.randint(1, 4))))
+        pieces, prev = [], 0
+        for c_ in cuts + [len(raw)]:
+            if c_ > prev:
+                pieces.append(raw[prev:c_])
+                prev = c_
+        try:
+            got, logged = read_pieces(pexpect, 'async', enc, 'strict', pieces, rng)
+        except Exception as e:
+            ctx.hit('C11/async-log', 'awaited read path, %s, pieces %r: raised %r' % (enc, pieces, e), {'encoding': enc, 'pieces': [list(p) for p in pieces]})
+            return
+        tried += 1
+        if logged != got or got != want:
+            ctx.hit('C11/async-log', 'awaited read path, %s, pieces %r (some arriving between two calls): the buffers received %r, logfile_read received %r'
+                    % (enc, pieces, got, logged), {'encoding': enc, 'pieces': [list(p) for p in pieces]})
+            return
+    ctx.oracle_stats['async_log_runs'] = tried
 
 
 def popen_small_reads(ctx, pexpect):
@@ -706,6 +741,7 @@ def run_property(ctx, which, props_file):
         oracle_C08(ctx, pexpect, results, True)
     else:
         oracle_C11(ctx, pexpect, results)
+        async_logs(ctx, pexpect, 3000 if thorough else 300)
         popen_small_reads(ctx, pexpect)
         interact_logs(ctx, pexpect)
 
